@@ -65,8 +65,22 @@ def binding_goal(rng, vars_, targets):
     return [('call', C('=', v, C('g', w, rng.choice(CONST)))), ('call', C('=', w, rng.choice(CONST)))]
 
 
+def _long(t, n=60):
+    k = 0
+    while t[0] == 'c' and t[1] == '.' and len(t[2]) == 2:
+        k += 1
+        if k > n:
+            return True
+        t = t[2][1]
+    return False
+
+
 def pattern(rng, t, vars_, d=0):
     """a pattern similar to the asserted term: variables replaced by constants / fresh variables"""
+    if t[0] == 'c' and t[1] == '.' and d > 0 and _long(t):
+        # (a very long list is matched as a whole: aliasing hundreds of positions through three variables only
+        # measures how slow dereferencing long chains is)
+        return V('_')
     if t[0] == 'v':
         r = rng.random()
         if r < 0.45:
@@ -87,6 +101,13 @@ def gen_compiled(rng):
     if rng.random() < 0.08:
         # a large asserted term (long list / wide structure with variables inside)
         T = L([rng.choice(tv + CONST) for _ in range(rng.choice([16, 17, 33, 40]))], rng.choice([NIL, tv[0]]))
+    manyvars = rng.random() < 0.03
+    if manyvars:
+        # a term with hundreds of DISTINCT variables between two occurrences of the same variable (a board, a wide
+        # record): whatever table the copying keeps must hold them all
+        k = rng.choice([100, 126, 127, 128, 129, 130, 200, 257])
+        T = C('f', tv[0], L([V('M%d' % i) for i in range(k)]), tv[0], rng.choice([tv[1], tv[0]]))
+        c['terms_with_100_or_more_distinct_variables'] = 1
     fact = C('p', T) if rng.random() < 0.8 else C('p', T, gterm(rng, tv, 1))
     targets = term_vars(fact) or tv[:1]
     goals = []
